@@ -734,12 +734,10 @@ func TestCheck(t *testing.T) {
 	for _, k := range order {
 		r.Violation(k, finds[k].v.rec)
 	}
-	var never, allNA []string
+	var allNA []string
 	for _, it := range its {
 		if deliveredBy[it.ID] == 0 {
 			allNA = append(allNA, it.ID)
-		} else if rejectedBy[it.ID] == 0 && acceptedTwins[it.ID] == 0 {
-			never = append(never, it.ID)
 		}
 	}
 	var neverRejectedNonTwin []string
